@@ -116,7 +116,7 @@ structure Local (n : Nat) (sh : Shared) (u : Nat) (pc : Pc) (k : Kind) : Prop wh
   /-- the value re-read under the lock is still the stored value -/
   fresh : ∀ v, pc = .store v → v = sh.numUses ∧ 1 ≤ v
   /-- a finished last use has queued the revocation (first party) or deleted the entry (third party) -/
-  lastq : ∀ r, pc = .done (some true) r → (scriptOf k).defer ≠ .noop → sh.queued = true ∨ sh.gone = true
+  lastq : ∀ r, pc = .done (some true) r → sh.queued = true ∨ sh.gone = true
   /-- the last use leaves the pending marker -/
   lastp : isLast pc = true → sh.numUses = pending
   /-- requests are only refused once the token is exhausted -/
@@ -205,7 +205,7 @@ theorem Local.mono {n : Nat} {sh sh' : Shared} {u : Nat} {pc : Pc} {k : Kind} (l
     Local n sh' u pc k where
   holder := by rw [h1]; exact l.holder
   fresh := by rw [h2]; exact l.fresh
-  lastq := fun r h hn => (l.lastq r h hn).elim (fun q => Or.inl (h3 q)) (fun g => Or.inr (h4 g))
+  lastq := fun r h => (l.lastq r h).elim (fun q => Or.inl (h3 q)) (fun g => Or.inr (h4 g))
   lastp := by rw [h2]; exact l.lastp
   refused := by rw [h2]; exact l.refused
   sync := l.sync
@@ -565,7 +565,7 @@ theorem local_inv {n : Nat} {s : St} {t : Nat} {pc pc' : Pc} {k : Kind} {sh' : S
         · intro v hv
           subst hv
           exact absurd (uniq u _ k' hu hk' rfl rfl) hne
-        · intro r hq _
+        · intro r hq
           have : isLast q = true := by subst hq; rfl
           exact absurd (l.lastp this) hnp
         · intro hq; exact absurd (l.lastp hq) hnp
@@ -670,27 +670,6 @@ theorem local_inv {n : Nat} {s : St} {t : Nat} {pc pc' : Pc} {k : Kind} {sh' : S
           · intro ho
             rw [obtained_done_eq 0 none none] at ho
             exact absurd rfl (hgot ((obtained_body_obtRes 0 none r').1 ho))
-        | noop =>
-          simp only
-          have hun : u ≠ none := by
-            intro hu; subst hu
-            have := nouse_defer k (hU i r rfl).1
-            simp [hd] at this
-          constructor <;> try (lc; done)
-          · simpa [holds] using hhold
-          · intro _ _ hn; exact absurd hd hn
-          · intro hl; apply hlast; simpa [isLast, pcU] using hl
-          · intro hr
-            cases u with
-            | none => exact absurd rfl hun
-            | some _ => simp [refusedPc] at hr
-          · intro _; exact huse hun
-          · intro _
-            cases u with
-            | none => exact absurd rfl hun
-            | some _ => rfl
-          · intro _ _ _ hs; simp [hd] at hs
-          · intro hn1; simpa [pcU] using hone hn1
         | lazy =>
           simp only
           have hun : u ≠ none := by
@@ -805,7 +784,7 @@ theorem local_inv {n : Nat} {s : St} {t : Nat} {pc pc' : Pc} {k : Kind} {sh' : S
       refine inv_same inv hpc hk (by cases u <;> rfl) ?_
       constructor <;> try (lc; done)
       · simpa [holds] using hhold
-      · exact fun _ _ _ => Or.inr hg
+      · exact fun _ _ => Or.inr hg
       · intro hl; apply hloc.lastp; simpa [isLast, pcU] using hl
       · intro hr
         cases u with
@@ -1209,7 +1188,7 @@ abbrev AllFirstParty (kinds : List Kind) : Prop := ∀ k ∈ kinds, firstParty k
 
 theorem wf_of {n : Nat} {kinds : List Kind} (hk : AllFirstParty kinds) :
     n = 1 ∨ ∀ k ∈ kinds, (scriptOf k).defer ≠ .sync :=
-  Or.inr fun k hm => by have := hk k hm; simp [firstParty] at this; exact this.1
+  Or.inr fun k hm => by simpa [firstParty] using hk k hm
 
 /-- a freshly wrapped response and `kinds.length` concurrent attempts (C18) -/
 abbrev wrapInit (kinds : List Kind) : St := initW true 1 kinds
